@@ -17,7 +17,6 @@ def readd(t): return ('readd', t)
 QUICK = [
     # --- multi-slot leaves: redundancy, symmetry, all sharing patterns between the two sides
     T('T1', 'Lf', 4, [add(f(0, 1)), add(f(2, 3)), union(f(0, 1), f(2, 3))], note='f(a,b)=f(c,d): all 15 sharing patterns'),
-    T('T1r', 'Lf', 4, [add(f(2, 3)), add(f(0, 1)), union(f(2, 3), f(0, 1))], note='T1 with both insertion order and orientation flipped (C12)'),
     T('T2', 'Lf', 4, [add(f(0, 1)), add(g(2, 3)), union(f(0, 1), g(2, 3))], note='f(a,b)=g(c,d)'),
     T('T3', 'Lf', 3, [add(f(0, 1)), add(g(0, 1)), union(f(0, 1), g(0, 1)), add(g(0, 2)), union(g(0, 1), g(0, 2)), readd(f(0, 1))],
       note='merge, then the leader loses a slot; old handle of the merged class (C13), re-insertion (C09)'),
@@ -42,3 +41,24 @@ QUICK = [
     T('B7', 'Lb', 2, [add(app(var(0), var(1))), add(var(0)), union(app(var(0), var(1)), var(0)), add(app(app(var(0), var(1)), var(1)))],
       note='equation whose right side mentions its own left side: x = app(x, b)'),
 ]
+
+
+def reorder(t, mode):
+    """a reordering of the same set of insertions and equations: 'flip' = every union with its sides exchanged;
+    'rev' = all insertions first in reverse order, then the unions in reverse order with sides exchanged"""
+    adds = [op for op in t.ops if op[0] == 'add']; unions = [op for op in t.ops if op[0] == 'union']
+    if mode == 'flip': ops = [('union', op[2], op[1]) if op[0] == 'union' else op for op in t.ops if op[0] != 'readd']
+    else: ops = list(reversed(adds)) + [('union', op[2], op[1]) for op in reversed(unions)]
+    return T(t.name + '~' + mode, t.lang, t.nnames, ops, t.analysis, t.distinct, 'reordering (%s) of %s' % (mode, t.name), group=t.name)
+
+def _with_groups(base, which):
+    out = []
+    for t in base:
+        out.append(t)
+        for mode in which.get(t.name, ()):
+            t.group = t.name; out.append(reorder(t, mode))
+    return out
+
+QUICK = _with_groups(QUICK, {'T1': ('rev',), 'T3': ('rev',), 'T4': ('flip',), 'B2': ('flip',), 'B5': ('rev',), 'TH2': ('rev',)})
+
+THOROUGH = []
